@@ -502,9 +502,9 @@ func docsStream(c *common.Ctx) {
 		lap(p.cfg.stream)
 	}
 	// recursive types: their own small stream
-	nrec := 1
+	nrec := 6
 	if c.Thorough() {
-		nrec = 10
+		nrec = 40
 	}
 	for i := 0; i < nrec; i++ {
 		run(genDoc(c.Rng, genCfg{format: "swagger", stream: "oas2-recursive", recursive: true}))
